@@ -16,6 +16,8 @@ import TetlProofs.C19.Transpose
 import TetlProofs.C19.StrideEq
 import TetlProofs.C19.Exhaustive
 import TetlProofs.C19.SubExtents
+import TetlProofs.C19.MdArray
+import TetlProofs.C19.TransposeObs
 namespace Tetl.C19.Props
 open Tetl Tetl.C19 Tetl.C19.Spec Tetl.C19.Lemmas
 
@@ -318,6 +320,77 @@ theorem mdarray_to_mdspan_eq (l : Lay) (t : IdxT) (hv : IdxT.Valid t) (e : Ext) 
       ∧ mdarrayToMdspanAt l t e (idx.map Int.ofNat) = .ok (offSpec l vals idx) :=
   ⟨mdarrayContainerSize_eq l t hv e vals he hf, mdarrayToMdspanAt_eq l t hv e vals he hf idx hr⟩
 
+/-- `mdspan::size()`, `mdspan::empty()`, `mdarray::size()`, `mdarray::empty()` under the precondition of the standard alone
+    (`SizeFits`: every extent representable in `index_type`, the size of the index space in `size_type`; no condition on
+    partial products, so a zero extent among huge extents is covered): the `size_t` product loop never fails, the result is
+    the exact product of the extents (no wrap-around), and `empty()` is true exactly when some extent is 0 -/
+theorem mdspan_size_empty_std (t : IdxT) (hv : IdxT.Valid t) (e : Ext) (vals : List Nat) (he : ExtIs t e vals)
+    (hf : SizeFits t vals) :
+    mdspanSize t e = .ok ((prod vals : Nat) : Int) ∧ mdspanEmpty t e = .ok (decide (0 ∈ vals))
+      ∧ mdarraySize t e = .ok ((prod vals : Nat) : Int) ∧ mdarrayEmpty t e = .ok (decide (0 ∈ vals)) :=
+  ⟨mdspanSize_std t hv e vals he hf, mdspanEmpty_std t hv e vals he hf, mdarraySize_std t hv e vals he hf,
+    mdarrayEmpty_std t hv e vals he hf⟩
+example : SizeFits ⟨8, true⟩ [100, 100, 0] ∧ ¬ Fits ⟨8, true⟩ [100, 100, 0] ∧ SizeFits ⟨8, true⟩ [16, 15]
+    ∧ ¬ Fits ⟨8, true⟩ [16, 15] := by decide
+
+/-- `SizeFits` is implied by `Fits` (so the theorem above extends `mdspan_size_empty_eq`) -/
+theorem size_fits_of_fits (t : IdxT) (vals : List Nat) (hf : Fits t vals) : SizeFits t vals := sizeFits_of_fits t vals hf
+
+/-- `mdspan::extents()` / `mdarray::extents()` return the extents object of the mapping: it reports the same extents and
+    compares equal (`extents::operator==`) to the object the mapping was built from -/
+theorem mdspan_extents_eq (t : IdxT) (e : Ext) (vals : List Nat) (he : ExtIs t e vals) :
+    ExtIs t (mdspanExtents e) vals ∧ Ext.eq t t (mdspanExtents e) e = .ok true := by
+  refine ⟨he, ?_⟩
+  have := extEq_eq t t (mdspanExtents e) e vals vals he he
+  simpa using this
+
+/-! ## mdarray constructors
+
+`Ctr.sized cap` is a container constructible from `size_t` / `(size_t, value)` (`static_vector<int, cap>`), `Ctr.arr n` is
+`etl::array<int, n>`; `CtrFits`: the container can hold `required_span_size()` elements (precondition). -/
+
+/-- `mdarray(mapping)` / `mdarray(extents)` / `mdarray(exts...)` never fail and leave a container of `required_span_size()`
+    (size-constructible container) resp. `n` (`etl::array<_, n>`) value-initialised elements; `mdarray(mapping, value)` /
+    `mdarray(extents, value)` leave that many copies of the value, and the element any in-range multi-index `idx` refers to
+    is the value -/
+theorem mdarray_ctor_value_eq (l : Lay) (t : IdxT) (hv : IdxT.Valid t) (e : Ext) (vals : List Nat) (he : ExtIs t e vals)
+    (hf : Fits t vals) (k : Ctr) (hk : CtrFits k (prod vals)) (val : Int) (idx : List Nat) (hr : InRange vals idx) :
+    mdarrayOfMapping l t e k = .ok (List.replicate (ctrLen k (prod vals)) 0)
+      ∧ mdarrayOfValue l t e k val = .ok (List.replicate (ctrLen k (prod vals)) val)
+      ∧ mdarrayRead l t e (List.replicate (ctrLen k (prod vals)) val) (idx.map Int.ofNat) = .ok val := by
+  refine ⟨mdarrayOfMapping_eq l t hv e vals he hf k hk, mdarrayOfValue_eq l t hv e vals he hf k hk val, ?_⟩
+  obtain ⟨c, h1, _, h3⟩ := mdarrayOfValue_read l t hv e vals he hf k hk val idx hr
+  rw [mdarrayOfValue_eq l t hv e vals he hf k hk val] at h1
+  rw [Except.ok.inj h1]
+  exact h3
+example : CtrFits (.sized 256) (prod [2, 3, 4]) ∧ CtrFits (.arr 260) (prod [2, 3, 4]) ∧ ctrLen (.sized 256) 24 = 24
+    ∧ ctrLen (.arr 260) 24 = 260 := by decide
+
+/-- `mdarray(extents | mapping, container const&)` and `(…, container&&)`: the mdarray holds the contents of the given
+    container, and `operator()` reads the container element at the closed-form offset (inside the container, which must
+    have at least `required_span_size()` elements) -/
+theorem mdarray_ctor_container_eq (l : Lay) (t : IdxT) (hv : IdxT.Valid t) (e : Ext) (vals : List Nat)
+    (he : ExtIs t e vals) (hf : Fits t vals) (c : List Int) (hb : prod vals ≤ c.length) (idx : List Nat)
+    (hr : InRange vals idx) :
+    mdarrayOfContainer c = c ∧
+      ∃ h : offSpec l vals idx < c.length,
+        mdarrayRead l t e (mdarrayOfContainer c) (idx.map Int.ofNat) = .ok c[offSpec l vals idx] :=
+  ⟨rfl, mdarrayRead_eq l t hv e vals he hf c hb idx hr⟩
+
+/-- the same constructors over a `layout_stride` mapping: `required_span_size()` = 1 + Σ (e_k − 1)·s_k elements (0 for an
+    empty index space); on a given container `c` of at least that many elements `operator()` reads `c[Σ i_k·s_k]` -/
+theorem mdarray_ctor_stride_eq (t : IdxT) (hv : IdxT.Valid t) (e : Ext) (vals s : List Nat) (he : ExtIs t e vals)
+    (hs : s.length = vals.length) (hf : FitsStride t vals s) (k : Ctr) (hk : CtrFits k (reqSpanStride vals s)) (val : Int)
+    (c : List Int) (hb : reqSpanStride vals s ≤ c.length) (idx : List Nat) (hr : InRange vals idx) :
+    mdarrayOfMappingStride t (smap e s) k = .ok (List.replicate (ctrLen k (reqSpanStride vals s)) 0)
+      ∧ mdarrayOfValueStride t (smap e s) k val = .ok (List.replicate (ctrLen k (reqSpanStride vals s)) val)
+      ∧ ∃ h : offStride s idx < c.length,
+          mdarrayReadStride t (smap e s) (mdarrayOfContainer c) (idx.map Int.ofNat) = .ok c[offStride s idx] :=
+  ⟨mdarrayOfMappingStride_eq t hv e vals s he hs hf k hk, mdarrayOfValueStride_eq t hv e vals s he hs hf k hk val,
+    mdarrayReadStride_eq t hv e vals s he hs hf c hb idx hr⟩
+example : FitsStride ⟨8, true⟩ [2, 3] [4, 1] ∧ CtrFits (.sized 256) (reqSpanStride [2, 3] [4, 1]) ∧ InRange [2, 3] [1, 2] := by
+  decide
+
 /-! ## extents constructors -/
 
 /-- every constructor of `extents` (rank_dynamic() values or rank() values; the pack, array and span forms reach the
@@ -362,6 +435,21 @@ theorem submdspan_extents_eq (t : IdxT) (hv : IdxT.Valid t) (e : Ext) (vals : Li
 example : Consistent [some 2, none, some 4] [2, 3, 4] ∧ keepOf [true, false, true] [2, 3, 4] = [2, 4]
     ∧ keepOf [true, false, true] [some 2, none, some 4] = [some 2, some 4] := by decide
 
+/-- `submdspan_extents(ext, slices...)` with any mix of `full_extent`, index and index-pair slices (`Slice.pair lo hi st`:
+    `etl::pair` / `etl::tuple` / `etl::array<_, 2>`; `st`: both members are integral constants), within the precondition
+    of [mdspan.sub.extents] (`SlicesOK`: one slice per dimension, `0 ≤ lo ≤ hi ≤ extent`) never leaves an array and yields
+    an extents object that reports the extent of every `full_extent` dimension and `hi − lo` for every pair, in order; the
+    static extent is the one of the source for `full_extent`, `hi − lo` for a pair of integral constants and
+    `dynamic_extent` for any other pair (after the fixes of branch fix-c19x) -/
+theorem submdspan_extents_slices_eq (t : IdxT) (hv : IdxT.Valid t) (e : Ext) (vals : List Nat) (he : ExtIs t e vals)
+    (hc : Consistent e.pat vals) (hm : ∀ x ∈ vals, x ≤ t.maxV) (sl : List Slice) (hok : SlicesOK sl vals) :
+    ∃ r, submdspanExtentsS t e sl = .ok r ∧ ExtIs t r (sliceVals sl vals) ∧ r.pat = slicePat sl e.pat
+      ∧ Consistent r.pat (sliceVals sl vals) := submdspanExtentsS_eq t hv e vals he hc hm sl hok
+example : SlicesOK [.full, .pair 1 3 false, .idx, .pair 1 3 true] [2, 3, 4, 4]
+    ∧ sliceVals [.full, .pair 1 3 false, .idx, .pair 1 3 true] [2, 3, 4, 4] = [2, 2, 2]
+    ∧ slicePat [.full, .pair 1 3 false, .idx, .pair 1 3 true] [some 2, some 3, none, none] = [some 2, none, some 2] := by
+  decide
+
 /-! ## layout_transpose -/
 
 /-- `layout_transpose<L>::mapping::operator()(i, j)` (= nested mapping at `(j, i)`, converted to `size_type`) never
@@ -405,6 +493,63 @@ theorem mdspan_access_transpose_eq {α : Type} (t : IdxT) (hv : IdxT.Valid t) (m
     ∃ h : offSpec (flipLay m.lay) [e0, e1] [i, j] < buf.length,
       mdspanAtT t m buf (i : Int) (j : Int) = .ok buf[offSpec (flipLay m.lay) [e0, e1] [i, j]] :=
   mdspanAtT_eq t hv m e0 e1 he hf buf hb i j hi hj
+
+/-- the six observers of `layout_transpose<L>::mapping` (L = layout_left / layout_right; `mdspan` and `mdarray` forward to
+    them) are those of the nested mapping — all `true` — and these answers are correct for the transposed view: it is
+    unique (distinct in-range index pairs get distinct offsets), exhaustive (every offset below `required_span_size()` is
+    hit) and strided (offset = i·stride(0) + j·stride(1)) -/
+theorem transpose_observers_eq (t : IdxT) (hv : IdxT.Valid t) (m : TMap) (e0 e1 : Nat) (he : ExtIs t m.nested [e1, e0])
+    (hf : Fits t [e1, e0]) :
+    m.obs = contigObs m.lay ∧ m.obs = ⟨true, true, true, true, true, true⟩
+      ∧ (∀ i j i' j' : Nat, i < e0 → j < e1 → i' < e0 → j' < e1 →
+          m.mapIdx t (i : Int) (j : Int) = m.mapIdx t (i' : Int) (j' : Int) → i = i' ∧ j = j')
+      ∧ (∀ k : Nat, k < e0 * e1 → ∃ i j : Nat, i < e0 ∧ j < e1 ∧ m.mapIdx t (i : Int) (j : Int) = .ok ((k : Nat) : Int))
+      ∧ (∀ i j : Nat, i < e0 → j < e1 → ∃ s0 s1 : Nat, m.stride t 0 = .ok ((s0 : Nat) : Int)
+          ∧ m.stride t 1 = .ok ((s1 : Nat) : Int) ∧ m.mapIdx t (i : Int) (j : Int) = .ok ((i * s0 + j * s1 : Nat) : Int)) :=
+  ⟨rfl, tmap_obs_eq m, fun i j i' j' hi hj hi' hj' h => tmap_unique t hv m e0 e1 he hf i j i' j' hi hj hi' hj' h,
+    fun k hk => tmap_exhaustive t hv m e0 e1 he hf k hk, fun i j hi hj => tmap_strided t hv m e0 e1 he hf i j hi hj⟩
+
+/-- `layout_transpose<layout_stride>::mapping` (nested strided mapping over extents `[e1, e0]` with strides `[s0, s1]`): the
+    constructor never fails, `extents()` reports `[e0, e1]`, `operator()(i, j)` is `i·s1 + j·s0`, `stride` returns the
+    nested strides swapped, `required_span_size()` is the one of the view's own strided mapping -/
+theorem transpose_stride_mapping_eq (t : IdxT) (hv : IdxT.Valid t) (ne : Ext) (e0 e1 s0 s1 : Nat)
+    (he : ExtIs t ne [e1, e0]) (hc : Consistent ne.pat [e1, e0]) (hf : FitsStride t [e1, e0] [s0, s1]) :
+    ∃ m, TSMap.make t (smap ne [s0, s1]) = .ok m ∧ ExtIs t m.extents [e0, e1] ∧ Consistent m.extents.pat [e0, e1]
+      ∧ m.reqSpan t = .ok ((reqSpanStride [e0, e1] [s1, s0] : Nat) : Int)
+      ∧ m.stride t 0 = .ok ((s1 : Nat) : Int) ∧ m.stride t 1 = .ok ((s0 : Nat) : Int)
+      ∧ ∀ i j : Nat, i < e0 → j < e1 →
+          m.mapIdx t (i : Int) (j : Int) = .ok ((offStride [s1, s0] [i, j] : Nat) : Int)
+          ∧ offStride [s1, s0] [i, j] < reqSpanStride [e0, e1] [s1, s0] := by
+  obtain ⟨m, hm, hn, h1, h2, h3⟩ := tsmap_make_eq t hv ne e0 e1 s0 s1 he hc hf
+  obtain ⟨h4, h5⟩ := tsmap_stride_eq t hv m ne e0 e1 s0 s1 hn he hf
+  exact ⟨m, hm, h1, h2, h3, h4, h5, fun i j hi hj =>
+    ⟨tsmap_mapIdx_eq t hv m ne e0 e1 s0 s1 hn he hf i j hi hj, offStride_lt_req [e0, e1] [s1, s0] [i, j] ⟨hi, hj, trivial⟩⟩⟩
+example : FitsStride ⟨8, true⟩ [3, 2] [1, 4] ∧ reqSpanStride [2, 3] [4, 1] = 7 ∧ offStride [4, 1] [1, 2] = 6 := by decide
+
+/-- the observers of the transposed strided mapping forward to the nested mapping, and a transposed mapping is exhaustive
+    iff the nested one is: `is_exhaustive()` is the exhaustiveness of the view's own strided mapping (extents `[e0, e1]`,
+    strides `[s1, s0]`), which equals that of the nested mapping (extents `[e1, e0]`, strides `[s0, s1]`); `is_unique`,
+    `is_strided`, `is_always_unique`, `is_always_strided` are `true`, `is_always_exhaustive` is `false` -/
+theorem transpose_stride_observers_eq (t : IdxT) (hv : IdxT.Valid t) (m : TSMap) (ne : Ext) (e0 e1 s0 s1 : Nat)
+    (hn : m.nested = smap ne [s0, s1]) (he : ExtIs t ne [e1, e0]) (hf : FitsStride t [e1, e0] [s0, s1])
+    (hfe : Fits t [e1, e0]) :
+    m.obs t = (smap ne [s0, s1]).obs t
+      ∧ m.obs t = .ok ⟨true, false, true, true, isExhaustiveStride [e0, e1] [s1, s0], true⟩
+      ∧ isExhaustiveStride [e0, e1] [s1, s0] = isExhaustiveStride [e1, e0] [s0, s1] :=
+  ⟨(tsmap_obs_eq t hv m ne e0 e1 s0 s1 hn he hf hfe).1, (tsmap_obs_eq t hv m ne e0 e1 s0 s1 hn he hf hfe).2,
+    isExhaustiveStride_swap e0 e1 s0 s1⟩
+example : isExhaustiveStride [2, 3] [1, 2] = true ∧ isExhaustiveStride [2, 3] [1, 4] = false
+    ∧ Fits ⟨8, true⟩ [3, 2] := by decide
+
+/-- `mdspan::operator()(i, j)` over a `layout_transpose<layout_stride>` mapping reads exactly `buffer[i·s1 + j·s0]`, inside
+    any buffer of `required_span_size` elements -/
+theorem mdspan_access_transpose_stride_eq {α : Type} (t : IdxT) (hv : IdxT.Valid t) (m : TSMap) (ne : Ext)
+    (e0 e1 s0 s1 : Nat) (hn : m.nested = smap ne [s0, s1]) (he : ExtIs t ne [e1, e0])
+    (hf : FitsStride t [e1, e0] [s0, s1]) (buf : List α) (hb : reqSpanStride [e0, e1] [s1, s0] ≤ buf.length) (i j : Nat)
+    (hi : i < e0) (hj : j < e1) :
+    ∃ h : offStride [s1, s0] [i, j] < buf.length,
+      mdspanAtTS t m buf (i : Int) (j : Int) = .ok buf[offStride [s1, s0] [i, j]] :=
+  mdspanAtTS_eq t hv m ne e0 e1 s0 s1 hn he hf buf hb i j hi hj
 
 /-! ## span::first / last / subspan (`SpanWF`: inside the base range, static extent = size) -/
 
